@@ -958,6 +958,33 @@ func (sc *scenario) genNeighbours(n *node.Node, now int64) []trace.Neighbour {
 		case roll < 52:
 			g := pick(r, []string{"xx", "", "{}", "[1,2]", "[null]", `[{"timestamp":"x"}]`, "null", "[]"})
 			res = append(res, trace.Neighbour{Target: target, Kind: "garbage", Answer: func(uint64, int) ([]byte, error) { return []byte(g), nil }})
+		case roll < 55 && roll >= 53:
+			// dates across the int64 wrap-around: a first block just below 2^63 (never date-checked), the next ones one
+			// interval later each in wrapped arithmetic (about -2^63: not zero, not after the round's time); one block
+			// longer than the host's chain.  Refused since fix e06ad63 (the expected date overflows), and by the model
+			// (no int64 date equals previous + interval computed exactly)
+			adv := sc.w.Wallets[len(sc.w.Wallets)-1]
+			S := sc.w.S
+			const maxI64 = int64(^uint64(0) >> 1)
+			ts := maxI64 - S.Interval/2
+			var raws []*node.RawBlock
+			for j := 0; j <= len(n.AllBlocks()) && j < 6; j++ {
+				rb := &node.RawBlock{Timestamp: ts}
+				if j == 0 {
+					rb.SetTxs(node.RewardRaw(adv.Address, true, ts, S.Genesis))
+					rb.Added = []string{adv.Address}
+				} else {
+					rb.SetTxs(node.RewardRaw(adv.Address, false, ts, 0))
+				}
+				raws = append(raws, rb)
+				ts += S.Interval // wraps after the first block
+			}
+			if ch, err := node.Relink(raws); err == nil && len(ch) >= 2 {
+				sc.w.Hist["neighbour:wrapped-dates"]++
+				res = append(res, trace.Serving(target, "wrapped-dates", ch, sc.w.S.BlocksLimit))
+				continue
+			}
+			res = append(res, trace.Neighbour{Target: target, Kind: "error", Answer: func(uint64, int) ([]byte, error) { return nil, fmt.Errorf("down") }})
 		case roll < 53: // rare here (each costs the 1.5 s real-time timeout); silence is the subject of profile faults
 			res = append(res, trace.Neighbour{Target: target, Kind: "silent", Silent: true})
 		default:
